@@ -140,8 +140,33 @@ fn parse_template(t: &str) -> Vec<Result<String, Dir>> {
     let mut defines: Vec<String> = Vec::new();
     let mut cur: Option<Dir> = None;
     let mut sec = Sec::None;
+    let mut skip_depth: usize = 0; // > 0 while inside a false //@ifdef / //@ifndef block
     for (ln, line) in t.lines().enumerate() {
         let tl = line.trim_start();
+        if let Some(rest) = tl.strip_prefix("//@") {
+            let r = rest.trim_end();
+            let (k0, a0) = match r.find(char::is_whitespace) {
+                Some(i) => (&r[..i], r[i..].trim()),
+                None => (r, ""),
+            };
+            if k0 == "ifdef" || k0 == "ifndef" {
+                let defined = defines.iter().any(|x| x == a0);
+                let take = if k0 == "ifdef" { defined } else { !defined };
+                if skip_depth > 0 || !take {
+                    skip_depth += 1;
+                }
+                continue;
+            }
+            if k0 == "endif" {
+                if skip_depth > 0 {
+                    skip_depth -= 1;
+                }
+                continue;
+            }
+        }
+        if skip_depth > 0 {
+            continue;
+        }
         if let Some(rest) = tl.strip_prefix("//@") {
             let rest = rest.trim_end();
             let (kw, arg) = match rest.find(char::is_whitespace) {
